@@ -15,6 +15,8 @@ CLAIMED = {
  "C07": ("exploration", "IterateSATGen and RandomGen both exhausted in one world on the same design; set equality by level names; no reference semantics involved", "two-realisations-agree (metamorphic) oracle", "6 C07"),
  "C08": ("exploration", "fault-free runs only: every legal peer behaviour and transport; any exception escaping synthesize_trials for IterateSATGen/RandomGen/CMSGen/UniGen on a constructor-accepted design is a violation", "totality oracle over legal peer behaviours", "6 C08"),
  "C09": ("exploration", "IterateSATGen/RandomGen/IterateGen with n in {0,1,|V|-1,|V|,|V|+1,3|V|}; length = min(n,|V|), no printed sequence more often than its reference multiplicity; under peer/IO faults fewer may return, never duplicates", "reference-model oracle with fault-relaxed count", "6 C09"),
+ "C19": ("exploration", "seeded histories of 3-12 public calls on one block (all strategies, print/tabulate/csv/tuples/dicts/mismatch) with stdout EPIPE and ENOSPC injected inside calls; block state invariants after every call; every later synthesize_trials must succeed (fresh-block twin as reference) with the same columns and valid sequences", "history machine with state invariants + fresh-twin reference", "6 C19"),
+ "C20": ("exploration", "same histories; conversions and CSV files (read back from the simulated file system) must reproduce every declared factor's returned values, never expose internal factors; CSV sub-check skipped for calls hit by an injected I/O fault", "history machine + output-equivalence oracle over SimFS", "6 C20"),
 }
 
 NA = {
